@@ -1,5 +1,6 @@
 import M3d.Lemmas.CollideWrap
 import M3d.Lemmas.CollideBall
+import M3d.Lemmas.CollideXf
 import Mathlib.Algebra.Order.Field.Rat
 /-!
 # C07 — Colliders report consistent ray and ball collisions
@@ -312,6 +313,145 @@ theorem ball_touches_iff_segment3d (p1 p2 ctr : V3 K) (q : K) (hne : (p2.sub p1)
     segBallSpec p1 p2 ctr q = true ↔
       ∃ lam, 0 ≤ lam ∧ lam ≤ 1 ∧ (p1.add ((p2.sub p1).scale lam)).distSq ctr < q :=
   segBallSpec_iff p1 p2 ctr q hne
+
+/-! ## (5) ball / circle queries against transformed colliders
+
+`TransformCollider(t, c)` for a `DistTransform` `t`: `Tf.Xf` / `Tf.Xf2` are the models of the transforms of
+`model3d/transform.go` / `model2d/transform.go` (shared with C05), `Tf.Xf.DistValid t` says that `t` is built
+from translations, uniform scales with a non-zero factor of either sign, orthogonal matrices (rotations,
+reflections) and `JoinedTransform`s of those (nested too) — everything `TransformCollider` accepts without
+panicking —, and `t.factor > 0` is the factor by which `t` multiplies distances (`ApplyDistance d = d·factor`). -/
+
+/-- **`transformed_ball_query`** — `transformedCollider.SphereCollision(c, r)` / `CircleCollision` ask the
+wrapped collider about the inverse-mapped centre with the radius **divided** by the distance factor of `t`
+(which is positive).  (A radius converted with the forward transform would be `r·factor`, off by `factor²`.) -/
+theorem transformed_ball_query (t : Tf.Xf K) (h : t.DistValid) (sph : V3 K → K → Bool) (t2 : Tf.Xf2 K)
+    (h2 : t2.DistValid) (circ : V2 K → K → Bool) :
+    (0 < t.factor ∧ ∀ p r, tSphere t sph p r = sph (xfApply t.inverse p) (r / t.factor)) ∧
+    (0 < t2.factor ∧ ∀ p r, tCircle t2 circ p r = circ (xf2Apply t2.inverse p) (r / t2.factor)) :=
+  ⟨⟨Tf.Xf.factor_pos t h, fun p r => tSphere_eq t h sph p r⟩,
+   ⟨Tf.Xf2.factor_pos t2 h2, fun p r => tCircle_eq t2 h2 circ p r⟩⟩
+
+/-- **`transformed_ball_touches_iff`** — if the wrapped collider's ball query answers "touching" exactly when
+its surface `S` has a point within `ρ` of the query centre (open ball `<`, the convention of triangles,
+segments and meshes; or closed ball `≤`, the convention of the `|SDF| ≤ r` primitives), for every centre and
+every `ρ ≥ 0`, then the transformed collider's ball query answers "touching" exactly when the **image surface**
+`t(S)` has a point within `r` of the centre — for every similarity `t`, centre and `r ≥ 0`. -/
+theorem transformed_ball_touches_iff (t : Tf.Xf K) (h : t.DistValid) (S : V3 K → Prop) (sph : V3 K → K → Bool)
+    (p : V3 K) (r : K) (hr : 0 ≤ r) :
+    ((∀ q ρ, 0 ≤ ρ → (sph q ρ = true ↔ ∃ x, S x ∧ x.distSq q < ρ * ρ)) →
+      (tSphere t sph p r = true ↔ ∃ x, S x ∧ (xfApply t x).distSq p < r * r)) ∧
+    ((∀ q ρ, 0 ≤ ρ → (sph q ρ = true ↔ ∃ x, S x ∧ x.distSq q ≤ ρ * ρ)) →
+      (tSphere t sph p r = true ↔ ∃ x, S x ∧ (xfApply t x).distSq p ≤ r * r)) :=
+  ⟨fun hs => tSphere_touch_lt t h S sph hs p r hr, fun hs => tSphere_touch_le t h S sph hs p r hr⟩
+
+/-- … the same for 2-D `transformedCollider.CircleCollision`. -/
+theorem transformed_circle_touches_iff (t : Tf.Xf2 K) (h : t.DistValid) (S : V2 K → Prop)
+    (circ : V2 K → K → Bool) (p : V2 K) (r : K) (hr : 0 ≤ r) :
+    ((∀ q ρ, 0 ≤ ρ → (circ q ρ = true ↔ ∃ x, S x ∧ x.distSq q < ρ * ρ)) →
+      (tCircle t circ p r = true ↔ ∃ x, S x ∧ (xf2Apply t x).distSq p < r * r)) ∧
+    ((∀ q ρ, 0 ≤ ρ → (circ q ρ = true ↔ ∃ x, S x ∧ x.distSq q ≤ ρ * ρ)) →
+      (tCircle t circ p r = true ↔ ∃ x, S x ∧ (xf2Apply t x).distSq p ≤ r * r)) :=
+  ⟨fun hs => tCircle_touch_lt t h S circ hs p r hr, fun hs => tCircle_touch_le t h S circ hs p r hr⟩
+
+/-- **`transformed_ball_touches_iff_triangle`** (what the `tballx` correspondence compares with) — a triangle
+behind a `transformedCollider`: the wrapped triangle's vertex/edge/face analysis `triBallSpec`, asked as
+`transformedCollider.SphereCollision` asks it (centre `t⁻¹(p)`, radius `t⁻¹.ApplyDistance(r)`), equals the same
+analysis of the **image triangle** `t(a) t(b) t(c)` for the ball `(p, r)` itself, and both hold iff some point
+of the image triangle is at squared distance `< r²` from `p`. -/
+theorem transformed_ball_touches_iff_triangle (t : Tf.Xf K) (h : t.DistValid) (a b c p : V3 K) (r : K)
+    (hnd : ((b.sub a).cross (c.sub a)).dot ((b.sub a).cross (c.sub a)) ≠ 0) :
+    tSphere t (fun q ρ => triBallSpec a b c q (ρ * ρ)) p r =
+        triBallSpec (xfApply t a) (xfApply t b) (xfApply t c) p (r * r) ∧
+    (triBallSpec (xfApply t a) (xfApply t b) (xfApply t c) p (r * r) = true ↔
+      ∃ u v, 0 ≤ u ∧ 0 ≤ v ∧ u + v ≤ 1 ∧ (xfApply t (triPoint a b c u v)).distSq p < r * r) := by
+  constructor
+  · rw [tSphere_eq t h, ← triBallSpec_image t h a b c p (r * r) hnd, div_mul_div_comm]
+  · rw [triBallSpec_iff _ _ _ _ _ (tri_image_nondeg t h a b c hnd)]
+    refine exists_congr fun u => exists_congr fun v => ?_
+    rw [xfApply_triPoint t (Tf.Xf.distValid_affine t h)]
+
+/-- **`transformed_circle_touches_iff_segment2d`** (`tcircx`) — the 2-D analogue for a segment behind a 2-D
+`transformedCollider`: the pulled-back circle test of the wrapped segment = the circle test of the image
+segment = some point of the image segment is at squared distance `< r²`. -/
+theorem transformed_circle_touches_iff_segment2d (t : Tf.Xf2 K) (h : t.DistValid) (s0 s1 p : V2 K) (r : K)
+    (hne : (s1.sub s0).dot (s1.sub s0) ≠ 0) :
+    tCircle t (fun q ρ => seg2BallSpec s0 s1 q (ρ * ρ)) p r =
+        seg2BallSpec (xf2Apply t s0) (xf2Apply t s1) p (r * r) ∧
+    (seg2BallSpec (xf2Apply t s0) (xf2Apply t s1) p (r * r) = true ↔
+      ∃ lam, 0 ≤ lam ∧ lam ≤ 1 ∧ (xf2Apply t (segPoint2 s0 s1 lam)).distSq p < r * r) := by
+  constructor
+  · rw [tCircle_eq t h, ← seg2BallSpec_image t h s0 s1 p (r * r) hne, div_mul_div_comm]
+  · rw [seg2BallSpec_iff _ _ _ _ (seg2_image_nondeg t h s0 s1 hne)]
+    refine exists_congr fun lam => ?_
+    rw [xf2Apply_segPoint t]
+
+/-- `seg2BallSpec` (the sqrt-free specification the `circx` / `tcircx` kinds print) decides "some point of the
+2-D segment is at squared distance `< q`". -/
+theorem ball_touches_iff_segment2d_spec (p1 p2 ctr : V2 K) (q : K) (hne : (p2.sub p1).dot (p2.sub p1) ≠ 0) :
+    seg2BallSpec p1 p2 ctr q = true ↔ ∃ lam, 0 ≤ lam ∧ lam ≤ 1 ∧ (segPoint2 p1 p2 lam).distSq ctr < q :=
+  seg2BallSpec_iff p1 p2 ctr q hne
+
+/-- **`transformed_ball_touches_iff_sphere`** (`tsphx`) — `Sphere.SphereCollision` (`|R - dist| ≤ r`, with the
+square root) behind a `transformedCollider` equals the sqrt-free sphere/ball test of the **image sphere**
+(centre `t(center)`, radius `ApplyDistance(R) = R·factor`), and holds iff some point of the image of the sphere's
+surface is within `r` (closed ball) of `p`. -/
+theorem transformed_ball_touches_iff_sphere {sqrtF : K → K} (hs : SqrtOK sqrtF) (t : Tf.Xf K) (h : t.DistValid)
+    (center p : V3 K) (R r : K) (hR : 0 ≤ R) (hr : 0 ≤ r) :
+    tSphere t (sphereBall sqrtF center R) p r =
+        ballSphereSpec (p.distSq (xfApply t center)) (t.applyDistance R) r ∧
+    (tSphere t (sphereBall sqrtF center R) p r = true ↔
+      ∃ x : V3 K, x.distSq center = R * R ∧ (xfApply t x).distSq p ≤ r * r) := by
+  refine ⟨sphereBall_image hs t h center p R r hR hr, ?_⟩
+  refine tSphere_touch_le t h (fun x => x.distSq center = R * R) _ (fun q ρ hρ => ?_) p r hr
+  rw [sphereBall_iff]
+  exact sphere_ball_iff hs center R q ρ hR hρ
+
+/-- **`transformed_circle_touches_iff_circle2d`** (`tcirc2x`) — `Circle.CircleCollision` behind a 2-D
+`transformedCollider` equals the sqrt-free circle/disc test of the image circle, which is
+`|R·factor - dist(p, t(center))| ≤ r`. -/
+theorem transformed_circle_touches_iff_circle2d {sqrtF : K → K} (hs : SqrtOK sqrtF) (t : Tf.Xf2 K)
+    (h : t.DistValid) (center p : V2 K) (R r : K) (hR : 0 ≤ R) (hr : 0 ≤ r) :
+    tCircle t (circleBall sqrtF center R) p r =
+        ballSphereSpec (p.distSq (xf2Apply t center)) (t.applyDistance R) r ∧
+    (ballSphereSpec (p.distSq (xf2Apply t center)) (t.applyDistance R) r = true ↔
+      |R * t.factor - p.dist sqrtF (xf2Apply t center)| ≤ r) := by
+  refine ⟨circleBall_image hs t h center p R r hR hr, ?_⟩
+  rw [Tf.Xf2.applyDistance_eq]
+  exact ballSphereSpec_iff hs _ _ _ (V2.distSq_nonneg _ _) (mul_nonneg hR (Tf.Xf2.factor_pos t h).le) hr
+
+/-- **`joined_ball_any`** — `JoinedCollider.SphereCollision` / `CircleCollision` (mesh colliders): a `true`
+answer means some child answered `true` (whatever the bounding-box prefilter says), and with a prefilter that
+admits every ball some child accepts (soundness of `sphereTouchesBounds`: C08) it is exactly "some child". -/
+theorem joined_ball_any {P : Type} (admits : P → K → Bool) (parts : List (P → K → Bool)) (c : P) (r : K) :
+    (joinedBall admits parts c r = true → ∃ s ∈ parts, s c r = true) ∧
+    ((∀ s ∈ parts, s c r = true → admits c r = true) →
+      (joinedBall admits parts c r = true ↔ ∃ s ∈ parts, s c r = true)) :=
+  joinedBall_spec admits parts c r
+
+/-- non-vacuity: `Scale(-2)` then a quarter turn about `z` then a translation is a valid `DistTransform` with
+factor 2; the unit right triangle is mapped to a triangle in the plane `z = 3`; a ball of radius `3/2` centred
+`2` above the image does not touch, radius `5/2` does — whereas the radius converted with the forward factor
+(`r·2` instead of `r/2`) would answer "touching" for `3/2` as well. -/
+example :
+    let t : Tf.Xf ℚ := .jcons (.scale (-2)) (.jcons (.ortho ⟨0, -1, 0, 1, 0, 0, 0, 0, 1⟩) (.jcons (.translate ⟨1, 1, 3⟩) .jnil))
+    let tri := fun (q : V3 ℚ) (ρ : ℚ) => triBallSpec ⟨0, 0, 0⟩ ⟨1, 0, 0⟩ ⟨0, 1, 0⟩ q (ρ * ρ)
+    t.applyDistance 1 = 2 ∧ xfApply t ⟨1, 0, 0⟩ = ⟨1, -1, 3⟩ ∧
+    tSphere t tri ⟨3/2, 1/2, 5⟩ (3/2) = false ∧ tSphere t tri ⟨3/2, 1/2, 5⟩ (5/2) = true ∧
+    tri (xfApply t.inverse ⟨3/2, 1/2, 5⟩) (t.applyDistance (3/2)) = true := by
+  refine ⟨?_, ?_, ?_, ?_, ?_⟩ <;> decide +kernel
+
+example : (Tf.Xf.jcons (.scale (-2 : ℚ)) (.jcons (.ortho ⟨0, -1, 0, 1, 0, 0, 0, 0, 1⟩)
+    (.jcons (.translate ⟨1, 1, 3⟩) .jnil))).DistValid := by
+  refine ⟨by show (-2 : ℚ) ≠ 0; norm_num, ?_, trivial, trivial⟩
+  show Tf.M3.mul _ _ = Tf.M3.one
+  simp [Tf.M3.mul, Tf.M3.transpose, Tf.M3.one]
+
+/-- the sphere/ball specification: a sphere of radius 2 and a ball whose centre is at distance 5 -/
+example :
+    ballSphereSpec (25 : ℚ) 2 3 = true ∧ ballSphereSpec (25 : ℚ) 2 (5/2) = false ∧
+    ballSphereSpec (1 : ℚ) 2 1 = true ∧ ballSphereSpec (1 : ℚ) 2 (1/2) = false ∧ ballSphereSpec (0 : ℚ) 2 3 = true := by
+  refine ⟨?_, ?_, ?_, ?_, ?_⟩ <;> decide +kernel
 
 /-! ## non-vacuity -/
 
